@@ -81,7 +81,7 @@ def _single_faults():
     out.append({"unknown": "last"})
     for w in (["raise"], ["stall", False], ["stall", True], ["reenter", "kill_self"], ["reenter", "maint"],
               ["reenter", "shutdown"], ["reenter", "nested_high"], ["reenter", "nested_low"],
-              ["reenter", "nested_dup"]):
+              ["reenter", "nested_dup"], ["reenter", "nested_steal"]):
         out.append({"work": w})
     for v in (["true"], ["false"], ["falsy", 0], ["falsy", None], ["falsy", ""], ["raise"],
               ["reenter", "kill_self"], ["reenter", "shutdown"], ["reenter", "nested_high"], ["reenter", "maint"]):
@@ -455,6 +455,8 @@ def run(plan, k):
                 return
             if kind == "nested_high":
                 nl, np_ = list(reslist), prio + 3
+            elif kind == "nested_steal":
+                nl, np_ = list(reslist[:1]) or ["r0"], prio + 3
             elif kind == "nested_low":
                 nl, np_ = list(reslist[:1]) or ["r0"], max(prio - 1, 0)
             else:
